@@ -12,7 +12,7 @@ from tiv.sem import trace
 
 RULES = {
     "MEMO": "memo safety (shared, rules/common.py): a memoised function in this property's files (or called from them) is a function of its "
-            "arguments only (no terminal/ambient/receiver state outside the key) and no caller mutates its result in place",
+            "arguments only (no terminal/ambient/receiver state outside the key) and no caller mutates its result in place; renderers keep no state: _render_image, _get_render_data, _format_render and the size helpers store to no attribute of the instance or class",
     "R1": 'the run-boundary predicate of the block renderer, traced to an expression over (alpha, a1, a2, a_cluster1, a_cluster2, px == cluster per half), agrees on all 648 valuations of a finite abstract domain with: flush <=> not (alpha and both halves stay transparent) and (colour change in either half or, under alpha, a change of transparency class in either half)',
     "R2": "the state update is complete: every loop-carried variable that update_buffer() reads (cluster1, cluster2, a_cluster1, a_cluster2, n) "
           "is reassigned right after the flush (alpha classes under `if alpha`), n restarts, and update_buffer() is called once more after the "
@@ -20,7 +20,7 @@ RULES = {
     "R3": "the emission of update_buffer as a truth table over (alpha, upper transparent, lower transparent, halves equal), read off its symbolic output shape: both transparent -> SGR_DEFAULT + blanks; one half transparent -> SGR_DEFAULT + FG of the other half + that half's glyph; opaque -> BG from the lower cluster (+ FG of the upper one and the upper-half glyph unless equal); the kitty workaround tests and nudges the background cluster",
     "R4": "alpha classification: the text renderer requests round_alpha=True and derives `alpha` from the returned mode; _get_render_data rounds the "
           "threshold to 0..255, classifies with strict `<` (at or above is opaque) and composites over the terminal background under state-only "
-          "conditions (no data-dependent shortcut); the background an image is composited over is the given colour or the terminal background with an opaque (string) fallback, never a numeric fill; shared with C19.R2: the transparency field of a format specifier is classified by the grammar's groups; the source image is read-only: no in-place edit of `<img>.info` / `.palette` where <img> can be the source object",
+          "conditions (no data-dependent shortcut); the background an image is composited over is the given colour or the terminal background with an opaque (string) fallback, never a numeric fill; shared with C19.R2: the transparency field of a format specifier is classified by the grammar's groups; the source image is read-only: no in-place edit of `<img>.info` / `.palette` where <img> can be the source object; nor is the image object modified in place (draft / paste / putalpha / thumbnail ...) where it can be the source, in _get_render_data and in the _render_image methods; resize(size, BOX) takes no reducing_gap / box",
 }
 BL, CM = "image/block.py", "image/common.py"
 SWAP = {"px1": "px2", "px2": "px1", "cluster1": "cluster2", "cluster2": "cluster1", "a1": "a2", "a2": "a1", "a_cluster1": "a_cluster2", "a_cluster2": "a_cluster1",
@@ -481,5 +481,7 @@ MUTANTS = [
     M("edit-source-info", CM, "BaseImage._get_render_data", '            convert_resize_img("RGB")\n            if pixel_data:\n                rgb = list(img.getdata())', '            img.info.pop("transparency", None)\n            convert_resize_img("RGB")\n            if pixel_data:\n                rgb = list(img.getdata())', {"R4"}),
     M("numeric-fallback-fill", CM, "BaseImage._get_render_data", '                    alpha = get_fg_bg_colors(hex=True)[1] or "#000000"\n', '                    alpha = get_fg_bg_colors(hex=True)[1] or 0\n', {"R4"}),
     M("numeric-fill-round-alpha", CM, "BaseImage._get_render_data", '"RGBA", img.size, get_fg_bg_colors(hex=True)[1] or "#000000"\n', '"RGBA", img.size, get_fg_bg_colors(hex=True)[1] or (0, 0, 0, 0)\n', {"R4"}),
+    M("draft-the-source", CM, "BaseImage._get_render_data", "        if not size:\n            size = self._get_render_size()\n", "        if not size:\n            size = self._get_render_size()\n        img.draft(None, size)\n", {"R4"}),
+    M("two-step-reduction", CM, "BaseImage._get_render_data", "img = img.resize(size, Image.Resampling.BOX)", "img = img.resize(size, Image.Resampling.BOX, reducing_gap=2.0)", {"R4"}),
     M("twin-reorder-disjuncts", BL, "BlockImage._render_image", "                    px1 != cluster1\n                    or px2 != cluster2\n", "                    px2 != cluster2\n                    or px1 != cluster1\n", twin=True),
 ]
